@@ -155,3 +155,104 @@ Section Loop.
     rewrite <- R. Transparent cong. exact C. Opaque cong.
   Qed.
 End Loop.
+
+(* ---- completeness for distinct abscissae modulo a prime, and the collision case ---------------------------- *)
+Transparent cong.
+Lemma cong_iff (q a b : Z) : cong q a b <-> a mod q = b mod q.
+Proof. reflexivity. Qed.
+Global Opaque cong.
+
+Section Complete.
+  Variable q : Z.
+  Hypothesis Pq : prime q.
+  Let Hq : 1 < q. Proof. pose proof (prime_ge_2 _ Pq). lia. Qed.
+
+  Lemma cong_gcd (x y : Z) : cong q x y -> Z.gcd x q = Z.gcd y q.
+  Proof.
+    intros H. apply cong_iff in H. rename H into E.
+    transitivity (Z.gcd (x mod q) q); [rewrite Z.gcd_mod by lia; apply Z.gcd_comm|].
+    rewrite E. rewrite Z.gcd_mod by lia. apply Z.gcd_comm.
+  Qed.
+
+  Lemma zprod_unit (a : Z) (done : list (Z * Z)) :
+    (forall a' b', In (a', b') done -> (a - a') mod q <> 0) -> Z.gcd (zprod a done) q = 1.
+  Proof.
+    induction done as [|[a' b'] tl IH]; intros H; cbn [zprod fold_right fst].
+    - apply Z.gcd_1_l.
+    - fold (zprod a tl). apply Zgcd_1_rel_prime. apply rel_prime_sym. apply rel_prime_mult.
+      + apply rel_prime_sym. apply Zgcd_1_rel_prime. apply IH. intros x y Hin. apply (H x y). now right.
+      + apply prime_rel_prime; [assumption|]. intros D. apply (H a' b'); [now left|].
+        apply Z.mod_divide; [lia|assumption].
+  Qed.
+
+  Lemma zprod_collide (a a' b' : Z) (done : list (Z * Z)) : In (a', b') done -> (a - a') mod q = 0 ->
+    cong q (zprod a done) 0.
+  Proof.
+    induction done as [|[x y] tl IH]; intros Hin Hc; [contradiction|]. cbn [zprod fold_right fst]. fold (zprod a tl).
+    destruct Hin as [E|Hin].
+    - inversion E; subst x y. assert (C : cong q (a - a') 0).
+      { apply cong_iff. rewrite Hc. now rewrite Z.mod_0_l by lia. }
+      rewrite C. apply cong_eq. ring.
+    - rewrite (IH Hin Hc). apply cong_eq. ring.
+  Qed.
+
+  (* pairwise distinct abscissae modulo the prime q: every round finds its inverse *)
+  Definition fresh (a : Z) (done : list (Z * Z)) : Prop := forall a' b', In (a', b') done -> (a - a') mod q <> 0.
+
+  Lemma loop_complete : forall pts done st, inv q done st ->
+    (forall pre a b post, pts = pre ++ (a, b) :: post -> fresh a (rev pre ++ done)) ->
+    exists f, ip_loop q st pts = Some f.
+  Proof.
+    induction pts as [|[a b] tl IH]; intros done st Hinv Hf; cbn [ip_loop]; [eauto|].
+    destruct st as [prod res].
+    assert (Fa : fresh a done) by (apply (Hf [] a b tl); reflexivity).
+    destruct Hinv as (L1 & L2 & HP & HR). cbn [fst snd] in *.
+    assert (G : Z.gcd (horner 1 a q prod) q = 1).
+    { rewrite (cong_gcd _ (zprod a done)); [now apply zprod_unit|]. rewrite horner_ev. apply HP. }
+    destruct (invm_coprime (horner 1 a q prod) q ltac:(lia) G) as [i Ei].
+    destruct (ip_step q (prod, res) (a, b)) as [st'|] eqn:ES.
+    - apply (IH ((a, b) :: done) st').
+      + apply (step_inv q done (prod, res) st' a b); [repeat split; assumption|assumption].
+      + intros pre a0 b0 post E. specialize (Hf ((a, b) :: pre) a0 b0 post). cbn [app rev] in Hf.
+        rewrite <- app_assoc in Hf. cbn [app] in Hf. apply Hf. now rewrite E.
+    - unfold ip_step in ES. rewrite Ei in ES. discriminate.
+  Qed.
+
+  Theorem interpolate_complete (pts : list (Z * Z)) : pts <> [] ->
+    (forall pre a b post, pts = pre ++ (a, b) :: post -> fresh a pre) ->
+    exists f, interpolate pts q = IpOk f.
+  Proof.
+    intros NE Hf. unfold interpolate. destruct pts as [|pt tl] eqn:EP; [contradiction|]. rewrite <- EP in *. clear EP pt tl NE.
+    destruct (Z.eqb_spec q 0); [lia|].
+    destruct (loop_complete pts [] ([], []) (inv_nil q)) as [f E].
+    - intros pre a b post Ep a' b' Hin. rewrite app_nil_r in Hin. apply in_rev in Hin. now apply (Hf pre a b post Ep a' b').
+    - rewrite E. eauto.
+  Qed.
+
+  (* a colliding abscissa: the routine returns false *)
+  Lemma loop_collision : forall pre done st a b post a' b', inv q done st ->
+    In (a', b') (rev pre ++ done) -> (a - a') mod q = 0 ->
+    ip_loop q st (pre ++ (a, b) :: post) = None.
+  Proof.
+    induction pre as [|[x y] pre IH]; intros done st a b post a' b' Hinv Hin Hc; cbn [app ip_loop].
+    - cbn [rev app] in Hin. destruct st as [prod res]. destruct Hinv as (L1 & L2 & HP & HR). cbn [fst snd] in *.
+      assert (G : Z.gcd (horner 1 a q prod) q <> 1).
+      { rewrite (cong_gcd _ 0).
+        - rewrite Z.gcd_0_l. lia.
+        - rewrite horner_ev, HP. now apply (zprod_collide a a' b'). }
+      apply invm_none in G; [|lia]. unfold ip_step. now rewrite G.
+    - destruct (ip_step q st (x, y)) as [st'|] eqn:ES; [|reflexivity].
+      apply (IH ((x, y) :: done) st' a b post a' b'); [now apply (step_inv q done st st' x y)| |assumption].
+      cbn [rev] in Hin. now rewrite <- app_assoc in Hin.
+  Qed.
+
+  Theorem interpolate_collision (pre post : list (Z * Z)) (a b a' b' : Z) :
+    In (a', b') pre -> (a - a') mod q = 0 -> interpolate (pre ++ (a, b) :: post) q = IpFalse.
+  Proof.
+    intros Hin Hc. unfold interpolate.
+    destruct (pre ++ (a, b) :: post) as [|pt tl] eqn:EP; [destruct pre; discriminate|]. rewrite <- EP. clear EP pt tl.
+    destruct (Z.eqb_spec q 0); [lia|].
+    rewrite (loop_collision pre [] ([], []) a b post a' b' (inv_nil q)); [reflexivity| |assumption].
+    rewrite app_nil_r. now apply in_rev in Hin.
+  Qed.
+End Complete.
